@@ -3,6 +3,8 @@ mod fam_c12;
 mod fam_c13;
 mod lib_e2e;
 mod fam_e2e;
+mod fam_c04;
+mod fam_c11;
 
 fn main() {
     let args: Vec<String> = std::env::args().collect();
@@ -17,6 +19,8 @@ fn main() {
         "c12" => fam_c12::run(seed, thorough),
         "c13" => fam_c13::run(seed, thorough),
         "e2e" => fam_e2e::run(seed, thorough),
+        "c04" => fam_c04::run(seed, thorough),
+        "c11" => fam_c11::run(seed, thorough),
         other => {
             eprintln!("unknown family {}", other);
             std::process::exit(2);
